@@ -428,5 +428,282 @@ theorem binFaces_cut (be : Bool) (f : FaceHdr) (fs : List (List ListInst)) (h : 
       simp only [encFaces] at he
       rw [he]; exact ⟨_, rfl⟩
 
+
+/-! ### ASCII PLY body at the line/token level -/
+
+/-- a vertex line as the writer produces it: non-empty text, exactly one parseable token per property -/
+def VLineOk (L : Lex) (n : Nat) (l : Line) : Prop :=
+  l.blank = false ∧ l.toks.length = n ∧ (l.toks.all L.floatOk) = true
+
+/-- what a cut inside line `l` at a token boundary leaves: non-empty text holding the first `t` tokens,
+    `0 < t < number of tokens` -/
+def PartialOf (d l : Line) : Prop :=
+  d.blank = false ∧ ∃ t, 0 < t ∧ t < l.toks.length ∧ d.toks = l.toks.take t
+
+theorem asciiVerts_step (L : Lex) (n : Nat) (l : Line) (ls : List Line) (k : Nat) (h : VLineOk L n l) :
+    asciiVerts L n (l :: ls) (k + 1) =
+      match asciiVerts L n ls k with
+      | .error e => .error e
+      | .ok (vs, r) => .ok (l.toks :: vs, r) := by
+  obtain ⟨hb, rfl, ha⟩ := h
+  simp only [asciiVerts, hb, Nat.lt_irrefl, if_false, List.take_length, ha, Bool.not_true,
+    Bool.false_eq_true]
+  cases asciiVerts L l.toks.length ls k with
+  | error e => rfl
+  | ok p => cases p; rfl
+
+theorem asciiVerts_full (L : Lex) (n : Nat) (vs : List Line) (h : ∀ l ∈ vs, VLineOk L n l) (rest : List Line) :
+    asciiVerts L n (vs ++ rest) vs.length = .ok (vs.map (·.toks), rest) := by
+  induction vs with
+  | nil => cases rest <;> simp [asciiVerts]
+  | cons l vs ih =>
+    have hvs : ∀ x ∈ vs, VLineOk L n x := fun x hx => h x (List.mem_cons_of_mem _ hx)
+    simp only [List.cons_append, List.length_cons, asciiVerts_step L n l _ _ (h l List.mem_cons_self),
+      ih hvs, List.map_cons]
+
+theorem asciiVerts_cut (L : Lex) (n : Nat) (vs : List Line) (h : ∀ l ∈ vs, VLineOk L n l)
+    (j : Nat) (hj : j < vs.length) (d : Option Line) (hd : ∀ x, d = some x → PartialOf x vs[j]) :
+    asciiVerts L n (vs.take j ++ d.toList) vs.length = .error .short := by
+  induction vs generalizing j with
+  | nil => simp at hj
+  | cons l vs ih =>
+    obtain ⟨hb, hl, ha⟩ := h l List.mem_cons_self
+    have hvs : ∀ x ∈ vs, VLineOk L n x := fun x hx => h x (List.mem_cons_of_mem _ hx)
+    cases j with
+    | zero =>
+      cases d with
+      | none => simp [asciiVerts]
+      | some x =>
+        obtain ⟨hxb, t, ht0, ht, hxt⟩ := hd x rfl
+        simp only [List.getElem_cons_zero] at ht hxt
+        have hlen : x.toks.length < n := by rw [hxt, List.length_take]; omega
+        simp [asciiVerts, hxb, hlen]
+    | succ j =>
+      simp only [List.take_succ_cons, List.cons_append, List.length_cons,
+        asciiVerts_step L n l _ _ (h l List.mem_cons_self)]
+      rw [ih hvs j (by simpa using hj) (by simpa using hd)]
+
+/-- token-level instance of a list property: the count token and the entries -/
+structure TokList where
+  cnt : Tok
+  entries : List Tok
+
+def TokList.toks (x : TokList) : List Tok := x.cnt :: x.entries
+
+/-- the list instances fit the face header from list index `i` on -/
+def TokListsOk (L : Lex) (f : FaceHdr) : Nat → List TokList → Prop
+  | _, [] => True
+  | i, x :: xs => L.int? x.cnt = some (x.entries.length : Int) ∧ entriesOk L f i x.entries = true ∧
+      TokListsOk L f (i + 1) xs
+
+def ptsUpd (f : FaceHdr) : Nat → List TokList → Option Nat → Option Nat
+  | _, [], pts => pts
+  | i, x :: xs, pts => ptsUpd f (i + 1) xs (if i = f.idx then some x.entries.length else pts)
+
+theorem asciiList_full (L : Lex) (x : TokList) (h : L.int? x.cnt = some (x.entries.length : Int)) (rest : List Tok) :
+    asciiList L (x.toks ++ rest) = some (x.entries, rest) := by
+  simp only [TokList.toks, List.cons_append, asciiList, h]
+  rw [if_neg (by
+    rintro (h | h)
+    · omega
+    · rw [List.length_append] at h; omega)]
+  simp
+
+theorem asciiList_cut (L : Lex) (x : TokList) (h : L.int? x.cnt = some (x.entries.length : Int)) (t : Nat)
+    (ht : t < x.toks.length) : asciiList L (x.toks.take t) = none := by
+  cases t with
+  | zero => simp [asciiList]
+  | succ t =>
+    simp only [TokList.toks, List.take_succ_cons, asciiList, h]
+    rw [if_pos]
+    right
+    simp only [TokList.toks, List.length_cons] at ht
+    simp only [List.length_take]; omega
+
+theorem faceLine_full (L : Lex) (f : FaceHdr) (i : Nat) (xs : List TokList) (h : TokListsOk L f i xs)
+    (pts : Option Nat) (extra : List Tok) :
+    asciiFaceLine L f i xs.length (xs.flatMap TokList.toks ++ extra) pts =
+      asciiFaceLine L f (i + xs.length) 0 extra (ptsUpd f i xs pts) := by
+  induction xs generalizing i pts with
+  | nil => simp [ptsUpd]
+  | cons x xs ih =>
+    obtain ⟨h1, h2, h3⟩ := h
+    simp only [List.flatMap_cons, List.append_assoc, List.length_cons, asciiFaceLine,
+      asciiList_full L x h1, h2, if_true, ptsUpd]
+    rw [ih (i + 1) h3]
+    congr 1
+
+theorem faceLine_cut (L : Lex) (f : FaceHdr) (i : Nat) (xs : List TokList) (h : TokListsOk L f i xs)
+    (pts : Option Nat) (t : Nat) (ht : t < (xs.flatMap TokList.toks).length) :
+    asciiFaceLine L f i xs.length ((xs.flatMap TokList.toks).take t) pts = .error .short := by
+  induction xs generalizing i pts t with
+  | nil => simp at ht
+  | cons x xs ih =>
+    obtain ⟨h1, h2, h3⟩ := h
+    simp only [List.flatMap_cons, List.length_cons] at ht ⊢
+    by_cases htl : t < x.toks.length
+    · rw [List.take_append_of_le_length (by omega)]
+      simp only [asciiFaceLine, asciiList_cut L x h1 t htl]
+    · rw [List.take_append, List.take_of_length_le (by omega)]
+      simp only [asciiFaceLine, asciiList_full L x h1, h2, if_true]
+      exact ih (i + 1) h3 _ _ (by simp only [List.length_append] at ht; omega)
+
+/-- a face line as the writer produces it: the token-level encoding of list instances that fit the
+    header, an index list of 3 or 4 entries, nothing after the last list -/
+def FLineOk (L : Lex) (f : FaceHdr) (l : Line) : Prop :=
+  l.blank = false ∧ ∃ xs : List TokList, xs.length = f.lists.length ∧ TokListsOk L f 0 xs ∧
+    l.toks = xs.flatMap TokList.toks ∧ ∃ p, ptsUpd f 0 xs none = some p ∧ (p = 3 ∨ p = 4)
+
+theorem faceLine_ok (L : Lex) (f : FaceHdr) (l : Line) (h : FLineOk L f l) :
+    ∃ p, asciiFaceLine L f 0 f.lists.length l.toks none = .ok p ∧ (p = 3 ∨ p = 4) := by
+  obtain ⟨_, xs, hlen, hok, htoks, p, hp, h34⟩ := h
+  refine ⟨p, ?_, h34⟩
+  have := faceLine_full L f 0 xs hok none []
+  rw [List.append_nil] at this
+  rw [htoks, ← hlen, this, hp]
+  simp only [asciiFaceLine]
+  rw [if_neg (by omega)]
+
+theorem faceLine_partial (L : Lex) (f : FaceHdr) (l d : Line) (h : FLineOk L f l) (hd : PartialOf d l) :
+    asciiFaceLine L f 0 f.lists.length d.toks none = .error .short := by
+  obtain ⟨_, xs, hlen, hok, htoks, _⟩ := h
+  obtain ⟨_, t, _, ht, hdt⟩ := hd
+  rw [hdt, htoks, ← hlen]
+  exact faceLine_cut L f 0 xs hok none t (by rw [← htoks]; exact ht)
+
+/-- the points of a face line (3 or 4) -/
+def linePoints (L : Lex) (f : FaceHdr) (l : Line) : Nat :=
+  match asciiFaceLine L f 0 f.lists.length l.toks none with
+  | .ok p => p
+  | .error _ => 0
+
+theorem asciiFaces_full (L : Lex) (f : FaceHdr) (fl : List Line) (h : ∀ l ∈ fl, FLineOk L f l) (rest : List Line) :
+    asciiFaces L f (fl ++ rest) fl.length = .ok (fl.map fun l => (linePoints L f l, l.toks)) := by
+  induction fl with
+  | nil => cases rest <;> simp [asciiFaces]
+  | cons l fl ih =>
+    have hl := h l List.mem_cons_self
+    obtain ⟨p, hp, _⟩ := faceLine_ok L f l hl
+    have hfl : ∀ x ∈ fl, FLineOk L f x := fun x hx => h x (List.mem_cons_of_mem _ hx)
+    simp only [List.cons_append, List.length_cons, asciiFaces, hl.1, hp, ih hfl, List.map_cons, linePoints,
+      Bool.false_eq_true, if_false]
+
+theorem asciiFaces_cut (L : Lex) (f : FaceHdr) (fl : List Line) (h : ∀ l ∈ fl, FLineOk L f l)
+    (j : Nat) (hj : j < fl.length) (d : Option Line) (hd : ∀ x, d = some x → PartialOf x fl[j]) :
+    asciiFaces L f (fl.take j ++ d.toList) fl.length = .error .short := by
+  induction fl generalizing j with
+  | nil => simp at hj
+  | cons l fl ih =>
+    have hl := h l List.mem_cons_self
+    obtain ⟨p, hp, _⟩ := faceLine_ok L f l hl
+    have hfl : ∀ x ∈ fl, FLineOk L f x := fun x hx => h x (List.mem_cons_of_mem _ hx)
+    cases j with
+    | zero =>
+      cases d with
+      | none => simp [asciiFaces]
+      | some x =>
+        have hx := hd x rfl
+        simp only [List.getElem_cons_zero] at hx
+        simp [asciiFaces, hx.1, faceLine_partial L f l x hl hx]
+    | succ j =>
+      simp only [List.take_succ_cons, List.cons_append, List.length_cons, asciiFaces, hl.1, hp,
+        Bool.false_eq_true, if_false]
+      rw [ih hfl j (by simpa using hj) (by simpa using hd)]
+
+
+/-! ### PTS at the line/token level -/
+
+/-- a point line as written: `fpp ≥ 3` tokens, the ones the reader uses parse -/
+def PLineOk (L : Lex) (fpp : Nat) (l : Line) : Prop :=
+  l.toks.length = fpp ∧ 3 ≤ fpp ∧ ptsTokensOk L l.toks = true
+
+theorem ptsLoop_step (L : Lex) (fpp : Nat) (l : Line) (ls : List Line) (n : Nat) (o : Option Nat)
+    (h : PLineOk L fpp l) (ho : o = none ∨ o = some fpp) :
+    ptsLoop L (l :: ls) (n + 1) o =
+      match ptsLoop L ls n (some fpp) with
+      | .error e => .error e
+      | .ok ps => .ok (ptsPoint l.toks :: ps) := by
+  obtain ⟨rfl, h3, hok⟩ := h
+  have hne : l.toks.isEmpty = false := by
+    cases hl : l.toks with
+    | nil => simp [hl] at h3
+    | cons a b => rfl
+  rcases ho with rfl | rfl
+  · simp only [ptsLoop, hne, Bool.false_eq_true, if_false, hok, Bool.not_true]
+    rw [if_neg (by omega)]
+    cases ptsLoop L ls n (some l.toks.length) with
+    | error e => rfl
+    | ok p => rfl
+  · simp only [ptsLoop, hne, Bool.false_eq_true, if_false, hok, Bool.not_true, bne_self_eq_false]
+    rw [if_neg (by omega)]
+    cases ptsLoop L ls n (some l.toks.length) with
+    | error e => rfl
+    | ok p => rfl
+
+theorem ptsLoop_full (L : Lex) (fpp : Nat) (pl : List Line) (h : ∀ l ∈ pl, PLineOk L fpp l) (o : Option Nat)
+    (ho : o = none ∨ o = some fpp) (rest : List Line) :
+    ptsLoop L (pl ++ rest) pl.length o = .ok (pl.map fun l => ptsPoint l.toks) := by
+  induction pl generalizing o with
+  | nil => cases rest <;> simp [ptsLoop]
+  | cons l pl ih =>
+    have hpl : ∀ x ∈ pl, PLineOk L fpp x := fun x hx => h x (List.mem_cons_of_mem _ hx)
+    simp only [List.cons_append, List.length_cons, ptsLoop_step L fpp l _ _ o (h l List.mem_cons_self) ho,
+      ih hpl (some fpp) (Or.inr rfl), List.map_cons]
+
+/-- a cut after at least one complete point line: missing lines, or a line with fewer fields → error -/
+theorem ptsLoop_cut (L : Lex) (fpp : Nat) (pl : List Line) (h : ∀ l ∈ pl, PLineOk L fpp l)
+    (j : Nat) (hj : j < pl.length) (d : Option Line)
+    (hd : ∀ x, d = some x → ∃ t, 0 < t ∧ t < fpp ∧ x.toks.length = t) :
+    ptsLoop L (pl.take j ++ d.toList) pl.length (some fpp) = .error .short ∨
+    (∃ x, d = some x ∧ ptsLoop L (pl.take j ++ d.toList) pl.length (some fpp) = .error .malformed) := by
+  induction pl generalizing j with
+  | nil => simp at hj
+  | cons l pl ih =>
+    have hpl : ∀ x ∈ pl, PLineOk L fpp x := fun x hx => h x (List.mem_cons_of_mem _ hx)
+    cases j with
+    | zero =>
+      cases d with
+      | none => left; simp [ptsLoop]
+      | some x =>
+        obtain ⟨t, ht0, ht, hxt⟩ := hd x rfl
+        left
+        have hne : x.toks.isEmpty = false := by
+          cases hl : x.toks with
+          | nil => simp [hl] at hxt; omega
+          | cons a b => rfl
+        simp only [List.take_zero, List.nil_append, Option.toList_some, List.length_cons, ptsLoop, hne,
+          Bool.false_eq_true, if_false]
+        by_cases h3 : x.toks.length < 3
+        · rw [if_pos h3]
+        · rw [if_neg h3, if_pos (by simp; omega)]
+    | succ j =>
+      simp only [List.take_succ_cons, List.cons_append, List.length_cons,
+        ptsLoop_step L fpp l _ _ (some fpp) (h l List.mem_cons_self) (Or.inr rfl)]
+      rcases ih hpl j (by simpa using hj) with h1 | ⟨x, hx, h2⟩
+      · left; rw [h1]
+      · right; exact ⟨x, hx, by rw [h2]⟩
+
+/-- the point a cut first line yields carries only tokens of the full line: each component is the full
+    point's component or absent -/
+theorem ptsPoint_restriction (toks : List Tok) (t : Nat) (ht : 3 ≤ t) :
+    (ptsPoint (toks.take t)).pos = (ptsPoint toks).pos ∧
+    ((ptsPoint (toks.take t)).intensity = none ∨ (ptsPoint (toks.take t)).intensity = (ptsPoint toks).intensity) ∧
+    ((ptsPoint (toks.take t)).color = none ∨ (ptsPoint (toks.take t)).color = (ptsPoint toks).color) := by
+  refine ⟨?_, ?_, ?_⟩
+  · simp only [ptsPoint, List.take_take]; congr 1; omega
+  · simp only [ptsPoint, List.length_take]
+    by_cases h : 3 < min t toks.length
+    · right
+      rw [if_pos h, if_pos (by omega)]
+      rw [List.getElem?_take]; simp; omega
+    · left; rw [if_neg h]
+  · simp only [ptsPoint, List.length_take]
+    by_cases h : 6 < min t toks.length
+    · right
+      rw [if_pos h, if_pos (by omega)]
+      congr 1
+      rw [List.drop_take, List.take_take]; congr 1; omega
+    · left; rw [if_neg h]
+
 end Readers
 end PolyVerif
